@@ -68,3 +68,25 @@ Corollary sub_alias_interleaved t src pat sls m' off j (p : Z) :
                 offset_impl t src (compose sls j) = Ok os /\
                 il_access (il_offset p off) o' = il_access p os.
 Proof. apply (sub_alias_accessor Z Z Z il_access il_offset il_access interleaved_law). Qed.
+
+(* ---- why the end-empty test must come BEFORE the mapping is evaluated (C14) ---------------------------
+   `sub_offset_impl` evaluates the source mapping at the slices' lower bounds only when no slice is an empty
+   slice starting at the end of its extent.  Evaluating it unconditionally (and discarding the value) is not
+   equivalent: on this admissible input - valid layout_right mapping of int with span 2147483644, slices
+   ([4,4), 536870910) - the lower bounds are not a valid multi-index and the evaluation overflows. *)
+Definition unguarded_first (t : ity) (src : mapping) (sls : list slice) : res Z :=
+  offset_impl t src (map (fun sl => wrap t (first_of sl)) sls).
+
+Lemma unguarded_offset_refuted :
+  exists (t : ity) (src : mapping) (sls : list slice),
+    valid t src /\ sub_kind_ok src = true /\ valid_slices sls (dims src) /\ Forall (slice_rep t) sls /\
+    (exists off, sub_offset_impl t src sls = Ok off) /\ unguarded_first t src sls = UB.
+Proof.
+  exists I32, (MRight [4; 536870911]), [SRange (Dyn 4) (Dyn 4); SIdx (Dyn 536870910)].
+  split; [|split; [reflexivity|split; [|split; [|split]]]].
+  - cbn [valid]. unfold admissible. split; [repeat constructor; cbv; intuition congruence|cbv; congruence].
+  - cbv. intuition congruence.
+  - repeat constructor; cbv; intuition congruence.
+  - eexists. vm_compute. reflexivity.
+  - vm_compute. reflexivity.
+Qed.
